@@ -24,6 +24,7 @@ ASSUMPTIONS = [
     'children are xs:string leaves with valid content, so the child sequence is the only source of invalidity',
     'the domain is models that the Glushkov reference finds deterministic under 1.0-style UPA and that the library accepts; others are skipped and counted',
     'open content: a word is judged only where the existential and the model-first reading agree (others counted as contested)',
+    'XSD 1.1 models where an element particle competes with a wildcard are judged only on the words for which the existential reading and the element-wins reading agree',
     'word length bound per model: all words up to the largest length with at most 500 words (max 4); thorough adds, for plain element-leaf models, the lengths up to 1500 words (max 6)',
 ]
 VERSIONS = {'1.0': XMLSchema10, '1.1': XMLSchema11}
@@ -200,6 +201,9 @@ def check_model(schema, root, version, keyname, model, opn, tier, acc=None):
     """Validates every word of the model's length classes.  Returns list of (key, what)."""
     sigma = sigma_of(model, opn)
     d = regex.dfa_of(model, sigma)
+    # XSD 1.1 models in which an element particle competes with a wildcard: judged only on the words for which the
+    # existential reading and the 'element wins' reading agree
+    dprio = regex.dfa_of(model, sigma, prefer_elements=True) if (opn is None and glushkov.conflicts(model, '1.0')[0]) else None
     ms = keyname
     discs = []
     nwords = 0
@@ -210,6 +214,10 @@ def check_model(schema, root, version, keyname, model, opn, tier, acc=None):
         for w in words_of(sigma, lengths):
             if opn is None:
                 exp = d.accepts(w)
+                if dprio is not None and dprio.accepts(w) != exp:
+                    if acc:
+                        acc.cnt('contested_element_vs_wildcard_words')
+                    continue
             else:
                 fn = regex.open_interleave_verdicts if opn[0] == 'interleave' else regex.open_suffix_verdicts
                 e1, e2 = fn(d, admitted, w)
@@ -257,10 +265,13 @@ def build_packed(version, batch):
     return schema, ok
 
 
-def in_domain(model, opn):
-    """Deterministic under 1.0-style UPA (an element/wildcard overlap counts as a conflict)."""
+def in_domain(model, opn, version='1.0'):
+    """Deterministic under 1.0-style UPA (an element/wildcard overlap counts as a conflict); for the XSD 1.1
+    processor also the models whose only conflicts are element-vs-wildcard (legal in 1.1)."""
     if glushkov.conflicts(model, '1.0')[0]:
-        return False
+        if version != '1.1' or opn is not None or glushkov.conflicts(model, '1.1')[0]:
+            return False
+        return True
     if opn is not None:
         # the open content wildcard must not compete with the model's own wildcards
         if any(lf[0] == 'any' for lf in M.leaves(model)):
@@ -310,7 +321,7 @@ def run_shard(shard, acc):
             seen.add(keyname)
             if sliced and not in_slice(version + keyname, seed, SLICES):
                 continue
-            if not in_domain(model, item[3]):
+            if not in_domain(model, item[3], version):
                 acc.cnt('skipped_nondeterministic')
                 continue
             batch.append(item)
